@@ -151,8 +151,8 @@ Proof.
     + cbn [fst]. apply (Inv_ext cfg _ _ HI0); reflexivity.
     + assert (Hk0 : alookup k (store (set_queue s q)) = None).
       { unfold amem in Hmem. destruct (alookup k (store (set_queue s q))); [discriminate|reflexivity]. }
-      destruct (admit cfg orc k id h w (set_queue s q)) as [[r s1] vs] eqn:Ha.
-      pose proof (admit_inv cfg orc k id h w _ r s1 vs HI0 Ha) as Hadm.
+      destruct (admission cfg orc k id h w (set_queue s q)) as [[r s1] vs] eqn:Ha.
+      pose proof (admission_inv cfg orc k id h w _ r s1 vs HI0 Ha) as Hadm.
       destruct r as [stt|site|why].
       * destruct stt as [| |rr|]; cbn [fst] in *.
         -- destruct Hadm as [HI1 _]. apply (Inv_ext cfg _ _ HI1); reflexivity.
@@ -169,8 +169,8 @@ Proof.
     + cbn [fst]. apply (Inv_ext cfg _ _ HI0); reflexivity.
     + assert (Hk0 : alookup k (store (set_queue s q)) = None).
       { unfold amem in Hmem. destruct (alookup k (store (set_queue s q))); [discriminate|reflexivity]. }
-      destruct (admit cfg orc k id h w (set_queue s q)) as [[r s1] vs] eqn:Ha.
-      pose proof (admit_inv cfg orc k id h w _ r s1 vs HI0 Ha) as Hadm.
+      destruct (admission cfg orc k id h w (set_queue s q)) as [[r s1] vs] eqn:Ha.
+      pose proof (admission_inv cfg orc k id h w _ r s1 vs HI0 Ha) as Hadm.
       destruct r as [stt|site|why].
       * destruct stt as [| |rr|]; cbn [fst] in *.
         -- destruct Hadm as [HI1 _]. apply (Inv_ext cfg _ _ HI1); reflexivity.
@@ -223,12 +223,12 @@ Proof.
   cbv zeta.
   destruct c as [k v id h w|k v id h w ttl|k|id w|].
   - destruct (amem k (store (set_queue s q))); [split; reflexivity|].
-    destruct (admit cfg orc k id h w (set_queue s q)) as [[r s1] vs] eqn:Ha.
-    pose proof (admit_frame _ _ _ _ _ _ _ _ _ _ Ha) as (_ & _ & _ & _ & _ & _ & F7 & F8 & _).
+    destruct (admission cfg orc k id h w (set_queue s q)) as [[r s1] vs] eqn:Ha.
+    pose proof (admission_frame _ _ _ _ _ _ _ _ _ _ Ha) as (_ & _ & _ & _ & _ & _ & F7 & F8 & _).
     destruct r as [stt|site|why]; [destruct stt| |]; cbn [fst]; split; try reflexivity; assumption.
   - destruct (amem k (store (set_queue s q))); [split; reflexivity|].
-    destruct (admit cfg orc k id h w (set_queue s q)) as [[r s1] vs] eqn:Ha.
-    pose proof (admit_frame _ _ _ _ _ _ _ _ _ _ Ha) as (_ & _ & _ & _ & _ & _ & F7 & F8 & _).
+    destruct (admission cfg orc k id h w (set_queue s q)) as [[r s1] vs] eqn:Ha.
+    pose proof (admission_frame _ _ _ _ _ _ _ _ _ _ Ha) as (_ & _ & _ & _ & _ & _ & F7 & F8 & _).
     destruct r as [stt|site|why]; [destruct stt; [|destruct (calc_expiry (now s1) ttl)| |]| |];
       cbn [fst]; split; try reflexivity; assumption.
   - destruct (alookup k (store (set_queue s q))) as [e|]; [|split; reflexivity].
